@@ -4,6 +4,7 @@ Marker-space vectors: ℕ → ℚ indexed `marker*dim + comp`; Eulerian fields: 
 Input:
   sizes <nV> <nW>
   params <body> <k> <c> <reset 0|1>
+  init <body> <t0>                      (start time of the interactor)
   e0 <nW values>
   op lag <body> <ui: nV values> <vb: nV values>
   op full <body> <ui: nV values> <vb: nV values> <nnz> (<cell> <j> <w>)*nnz       S F cell = Σ w·F j
@@ -16,10 +17,48 @@ import SophtVerif.Model.VBF
 import Mathlib.Algebra.Order.Field.Rat
 import Mathlib.Algebra.Module.Rat
 import Std.Data.HashMap
+import Mathlib.Tactic.Ring
+import Mathlib.Tactic.NormNum
 
 open Sopht.Model
 
-abbrev Vec := ℕ → ℚ
+/-- vectors with hand-rolled, shallow algebra instances: Mathlib's `Pi` module instances are correct but
+far too slow under the interpreter (every `•`/`+` re-evaluates a deep instance chain) -/
+structure Vec where
+  f : ℕ → ℚ
+
+instance : CoeFun Vec (fun _ => ℕ → ℚ) := ⟨Vec.f⟩
+
+@[ext] theorem Vec.ext' {a b : Vec} (h : ∀ i, a.f i = b.f i) : a = b := by
+  cases a; cases b; congr; funext i; exact h i
+
+instance : AddCommGroup Vec where
+  add a b := ⟨fun i => a.f i + b.f i⟩
+  zero := ⟨fun _ => 0⟩
+  neg a := ⟨fun i => -a.f i⟩
+  sub a b := ⟨fun i => a.f i - b.f i⟩
+  nsmul n a := ⟨fun i => (n : ℚ) * a.f i⟩
+  zsmul n a := ⟨fun i => (n : ℚ) * a.f i⟩
+  add_assoc a b c := by ext i; exact add_assoc _ _ _
+  zero_add a := by ext i; exact zero_add _
+  add_zero a := by ext i; exact add_zero _
+  add_comm a b := by ext i; exact add_comm _ _
+  neg_add_cancel a := by ext i; exact neg_add_cancel _
+  sub_eq_add_neg a b := by ext i; exact sub_eq_add_neg _ _
+  nsmul_zero a := by ext i; show ((0 : ℕ) : ℚ) * a.f i = 0; simp
+  nsmul_succ n a := by ext i; show ((n + 1 : ℕ) : ℚ) * a.f i = (n : ℚ) * a.f i + a.f i; push_cast; ring
+  zsmul_zero' a := by ext i; show ((0 : ℤ) : ℚ) * a.f i = 0; simp
+  zsmul_succ' n a := by ext i; show (((n : ℕ) + 1 : ℤ) : ℚ) * a.f i = ((n : ℕ) : ℤ) * a.f i + a.f i; push_cast; ring
+  zsmul_neg' n a := by ext i; show ((Int.negSucc n : ℤ) : ℚ) * a.f i = -((((n : ℕ) + 1 : ℤ) : ℚ) * a.f i); simp [Int.negSucc_eq]; ring
+
+instance : Module ℚ Vec where
+  smul c a := ⟨fun i => c * a.f i⟩
+  one_smul a := by ext i; exact one_mul _
+  mul_smul c d a := by ext i; exact mul_assoc _ _ _
+  smul_zero c := by ext i; exact mul_zero _
+  smul_add c a b := by ext i; exact mul_add _ _ _
+  add_smul c d a := by ext i; exact add_mul _ _ _
+  zero_smul a := by ext i; exact zero_mul _
 
 def parseRat (t : String) : Option ℚ :=
   match t.splitOn "/" with
@@ -32,20 +71,24 @@ def parseRat (t : String) : Option ℚ :=
 
 def showRat (q : ℚ) : String := if q.den == 1 then toString q.num else s!"{q.num}/{q.den}"
 
-def materialise (n : ℕ) (f : Vec) : Vec :=
-  let a : Array ℚ := Array.ofFn (n := n) fun i => f i
-  fun i => a.getD i 0
+/-- evaluate a vector into an array (strict) -/
+def toArr (n : ℕ) (f : Vec) : Array ℚ := Array.ofFn (n := n) fun i => f.f i
 
-def showVec (n : ℕ) (f : Vec) : String := " ".intercalate ((List.range n).map fun i => showRat (f i))
+/-- array-backed vector; the array is an argument, so it is never rebuilt -/
+def ofArr (a : Array ℚ) : Vec := ⟨fun i => a.getD i 0⟩
 
-def vecOf (ts : List String) : Vec :=
-  let a := (ts.map fun t => (parseRat t).getD 0).toArray
-  fun i => a.getD i 0
+def showVec (n : ℕ) (f : Vec) : String := " ".intercalate ((List.range n).map fun i => showRat (f.f i))
+
+def arrOf (ts : List String) : Array ℚ := (ts.map fun t => (parseRat t).getD 0).toArray
+
+def vecOf (ts : List String) : Vec := ofArr (arrOf ts)
 
 /-- sparse spreading map: triples (cell, j, w) grouped by cell -/
-def spreadMap (tr : List (ℕ × ℕ × ℚ)) : Vec → Vec :=
-  let m : Std.HashMap ℕ (List (ℕ × ℚ)) := tr.foldl (fun m (c, j, w) => m.insert c ((j, w) :: (m.getD c []))) {}
-  fun F cell => ((m.getD cell []).map fun (j, w) => w * F j).sum
+def groupTriples (tr : List (ℕ × ℕ × ℚ)) : Std.HashMap ℕ (List (ℕ × ℚ)) :=
+  tr.foldl (fun m (c, j, w) => m.insert c ((j, w) :: (m.getD c []))) {}
+
+def spreadOf (m : Std.HashMap ℕ (List (ℕ × ℚ))) : Vec → Vec :=
+  fun F => ⟨fun cell => ((m.getD cell []).map fun (j, w) => w * F.f j).sum⟩
 
 partial def triples : List String → List (ℕ × ℕ × ℚ)
   | c :: j :: w :: rest => (c.toNat!, j.toNat!, (parseRat w).getD 0) :: triples rest
@@ -65,8 +108,13 @@ def Sess.runAll (s : Sess) : IO Unit := do
   for (b, op) in s.ops.toList do
     let sys' := VBFSys.step s.paramFn sys op
     let st := sys'.body b
-    let stM : VBFState ℚ Vec := { I := materialise s.nV st.I, D := materialise s.nV st.D, F := materialise s.nV st.F, t := st.t }
-    sys := { body := Function.update sys'.body b stM, E := materialise s.nW sys'.E }
+    let aI := toArr s.nV st.I
+    let aD := toArr s.nV st.D
+    let aF := toArr s.nV st.F
+    let aE := toArr s.nW sys'.E
+    let stM : VBFState ℚ Vec := { I := ofArr aI, D := ofArr aD, F := ofArr aF, t := st.t }
+    let prev := sys.body
+    sys := { body := fun b' => if b' = b then stM else prev b', E := ofArr aE }
     IO.println s!"body {b} t {showRat stM.t} I {showVec s.nV stM.I} D {showVec s.nV stM.D} F {showVec s.nV stM.F}"
     IO.println s!"E {showVec s.nW sys.E}"
   IO.println "done"
@@ -81,6 +129,11 @@ partial def loop (h : IO.FS.Stream) (s : Sess) : IO Unit := do
   | ["params", b, k, c, r] =>
       loop h { s with params := s.params.insert b.toNat! { k := (parseRat k).getD 0, c := (parseRat c).getD 0, reset := r == "1" } }
   | "e0" :: vs => loop h { s with sys := { s.sys with E := vecOf vs } }
+  | ["init", b, t0] =>
+      let prev := s.sys.body
+      let bi := b.toNat!
+      let st : VBFState ℚ Vec := { I := 0, D := 0, F := 0, t := (parseRat t0).getD 0 }
+      loop h { s with sys := { s.sys with body := fun b' => if b' = bi then st else prev b' } }
   | "op" :: "lag" :: b :: rest =>
       let ui := vecOf (rest.take s.nV)
       let vb := vecOf ((rest.drop s.nV).take s.nV)
@@ -88,8 +141,8 @@ partial def loop (h : IO.FS.Stream) (s : Sess) : IO Unit := do
   | "op" :: "full" :: b :: rest =>
       let ui := vecOf (rest.take s.nV)
       let vb := vecOf ((rest.drop s.nV).take s.nV)
-      let tr := triples ((rest.drop (2 * s.nV)).drop 1)
-      loop h { s with ops := s.ops.push (b.toNat!, .evalFull b.toNat! ui vb (spreadMap tr)) }
+      let tr := groupTriples (triples ((rest.drop (2 * s.nV)).drop 1))
+      loop h { s with ops := s.ops.push (b.toNat!, .evalFull b.toNat! ui vb (spreadOf tr)) }
   | ["op", "step", b, dt] => loop h { s with ops := s.ops.push (b.toNat!, .timeStep b.toNat! ((parseRat dt).getD 0)) }
   | ["run"] => do s.runAll; loop h {}
   | _ => loop h s
